@@ -128,8 +128,8 @@ def setAttr (a : Str) (vals : List EVal) (e : Entry) : Entry :=
 /-- one modification: ADD appends the values, DELETE without values removes the attribute, DELETE
     with values removes those values, REPLACE sets the values (no values: removes the attribute).
     Server-side errors (adding a value that is there, deleting what is not there) are not part of
-    the specification (it is total): `_diff_entries` sends ADD only for an attribute it did not read,
-    DELETE / REPLACE only for one it read. -/
+    the specification (it is total): `Admin.update` sends ADD only for an attribute that is not stored,
+    DELETE / REPLACE only for one that is (`C15_update_request_valid`). -/
 def applyMod (e : Entry) (a : Str) (m : Mod) : Entry :=
   let cur := (valuesOf a e).getD []
   match m.1 with
